@@ -89,6 +89,21 @@ def c12sr (a : List String) (_obs : String) : String × String :=
     (s!"{e} got={Bytes.toHex out}", verdict)
   | _ => ("BADOP", "skip")
 
+/-- the suffixed reader over a source that is idle ((0, nil)) before every chunk: judged by the flat oracle only -/
+def c12srz (a : List String) (obs : String) : String × String :=
+  match a with
+  | [src, _k, _fin, _br, _sizes] =>
+    let want := hexOrEmpty src ++ [0, 0, 255, 255, 1, 0, 0, 255, 255]
+    let got := hexOrEmpty (getF obs "got")
+    let st := (obs.splitOn " ").headD ""
+    let verdict :=
+      if st == "eof" && got != want then "bad:suffixed-stream-is-not-source-plus-tail"
+      else if want.take got.length != got then "bad:suffixed-stream-is-not-a-prefix-of-source-plus-tail"
+      else if st == "more" then "bad:suffixed-stream-never-ends"
+      else "ok"
+    (obs, verdict)
+  | _ => ("BADOP", "skip")
+
 def endStr : InflateEnd → String
   | .final => "final" | .boundary => "boundary" | .truncated => "truncated" | .corrupt w => "corrupt:" ++ w
 
@@ -243,14 +258,16 @@ def c12badc (a : List String) (obs : String) : String × String :=
     let p := hexOrEmpty pay
     let ftail : Bytes := match mode with
       | "notail" => [] | "wrongtail" => [0, 0, 255, 254] | "shorttail" => [255, 255] | _ => [0, 0, 255, 255]
+    let ctail : Bytes := match mode with
+      | "closeextra" => [3, 0] | "closesum" => [0x12, 0x34, 0x56, 0x78] | "closegood" => [1, 0, 0, 255, 255] | _ => []
     let w0 : FlWr := {}
     let (e1, w1) := w0.write (if p.isEmpty then [] else [p])
     let (e2, w2) := w1.flush (if ftail.isEmpty then [] else [ftail])
-    let (e3, w3) := w2.flush []
+    let (e3, w3) := w2.flush (if ctail.isEmpty then [] else [ctail])
     let e := match e1, e2, e3 with
       | some e, _, _ => some e | none, some e, _ => some e | none, none, e => e
     let model := s!"{flErrStr e} out={if e.isSome then "-" else Bytes.toHex w3.cbuf.dst.bytes}"
-    let total := p ++ ftail
+    let total := p ++ ftail ++ ctail
     let endsOk := total.length ≥ 4 && total.drop (total.length - 4) == [0, 0, 255, 255]
     let verdict :=
       if !endsOk && (obs.splitOn " ").headD "" == "nil" then "bad:compressor-without-tail-not-reported"
